@@ -17,6 +17,7 @@ const VerifDir = "/verif"
 // Prepare runs the frame/effect pass.
 func (e *Engine) Prepare() {
 	e.effects = e.ComputeEffects()
+	e.setupTypeInvs()
 }
 
 type KnownFinding struct {
